@@ -11,6 +11,7 @@ import (
 )
 
 type pairCase struct {
+	newEff  Schema // m.New with the effective (front-end computed) tags of implicitly tagged combinators
 	m       mcCase
 	verdict string
 	genErr  string
@@ -33,7 +34,7 @@ func runC28(c *core.Ctx) error {
 		return err
 	}
 	defer l.Close()
-	bases, err := chooseBases(c, l, 9, c.Pick(2, 10), c.Pick(150, 400))
+	bases, err := chooseBases(c, l, 10, c.Pick(2, 10), c.Pick(150, 400))
 	if err != nil {
 		return err
 	}
@@ -67,7 +68,12 @@ func runC28(c *core.Ctx) error {
 			byAction[e.label()]++
 		}
 		byLen[len(m.Log)]++
-		pc := pairCase{m: m, verdict: "reject", genErr: r.GenErrNew}
+		pc := pairCase{m: m, verdict: "reject", genErr: r.GenErrNew, newEff: m.New}
+		if r.Panic == "" {
+			if pc.newEff, err = withEffectiveTags(m.New, r.ShapeNew); err != nil {
+				return err
+			}
+		}
 		if r.Panic != "" {
 			c.Violate("linter-panics/"+logLabel(m.Log), "the linter panics: "+r.Panic,
 				map[string]any{"old": RenderBody(old), "new": RenderBody(m.New), "log": m.Log})
@@ -132,7 +138,7 @@ func runC28(c *core.Ctx) error {
 		return fmt.Errorf("vacuous: no pair reached by two edits")
 	}
 	for _, k := range append(append([]string{}, docUnsafeKinds...), "AppendMaskedField", "AppendConstructor", "AddType", "AddFunction",
-		"AppendFunctionMaskAndArgs", "ChangeExplicitTag", "AppendFieldOnSetBit") {
+		"AppendFunctionMaskAndArgs", "ChangeExplicitTag", "AppendFieldOnSetBit", "DropExplicitTag", "AddExplicitTag") {
 		n := 0
 		for a, v := range byAction {
 			if a == k || strings.HasPrefix(a, k+"/") {
@@ -158,7 +164,7 @@ func runC28(c *core.Ctx) error {
 			}
 			nRej++
 		}
-		evs = append(evs, traceEvent{Old: bases[pc.m.B-1].S, New: pc.m.New, Verdict: pc.verdict, Kind: "pair"})
+		evs = append(evs, traceEvent{Old: bases[pc.m.B-1].S, New: pc.newEff, Verdict: pc.verdict, Kind: "pair"})
 		evCase = append(evCase, i)
 	}
 	c.Set("trace_rejected_events_omitted", rejected-nRej)
@@ -258,14 +264,14 @@ func runC28(c *core.Ctx) error {
 					continue // findings are re-confirmed with generated code in the thorough tier only (build time)
 				}
 				seenLabel[lbl] = true
-				gp = append(gp, genPair{Old: bases[pc.m.B-1].S, New: pc.m.New, Label: lbl})
+				gp = append(gp, genPair{Old: bases[pc.m.B-1].S, New: pc.newEff, Label: lbl})
 				gpKey = append(gpKey, "linter-accepts/"+ul[0])
 				continue
 			}
 			if nGood > 0 {
 				nGood--
 				seenLabel[lbl] = true
-				gp = append(gp, genPair{Old: bases[pc.m.B-1].S, New: pc.m.New, Label: lbl, ExpectWC: true})
+				gp = append(gp, genPair{Old: bases[pc.m.B-1].S, New: pc.newEff, Label: lbl, ExpectWC: true})
 				gpKey = append(gpKey, "")
 			}
 		}
@@ -332,7 +338,7 @@ func runC28(c *core.Ctx) error {
 	var flip []traceEvent
 	for _, pc := range cases {
 		if pc.verdict == "reject" && len(pc.m.Log) == 1 && pc.m.Log[0].Doc && !pc.m.Log[0].Benign && !pc.m.Log[0].Safe && pc.m.Log[0].A == "RemoveField" {
-			flip = append(flip, traceEvent{Old: bases[pc.m.B-1].S, New: pc.m.New, Verdict: "accept", Kind: "pair"})
+			flip = append(flip, traceEvent{Old: bases[pc.m.B-1].S, New: pc.newEff, Verdict: "accept", Kind: "pair"})
 			break
 		}
 	}
